@@ -33,3 +33,7 @@ _kernel("C19", "kernel_host_header", "host_header", (None,),
         symbolic="host: any byte sequence without ':'; port: any integer >= 0 or None; scheme from {http, https, ws, wss, ftp, foo}",
         bounds="UNBOUNDED in host and port: the Host/port decision of include_request_headers; the '%b:%d' rendering is an uninterpreted function (checked on concrete ports by C19.parse)",
         outside="IPv6 literal hosts (E1 C19.parse)", also=("C03",))
+_kernel("C12", "kernel_h2_permits", "h2_permits", ("async", "sync"),
+        symbolic="current stream limit and free permits (1..6, 0..limit), whether the SETTINGS frame carries MAX_CONCURRENT_STREAMS, its new value (0..6)",
+        bounds="_receive_remote_settings_change with both adjustment loops unwound (unwinding assertion) for limits up to 6: the limit follows the advertised value, permits are conserved, and the reader never blocks if the streams in flight fit the new limit",
+        outside="limits above 6 (the loops are uniform in the distance); the case streams-in-flight > new limit, which blocks the reader (known finding D10, scenario harness C12.streams)")
